@@ -28,11 +28,12 @@ class Contract:
 
 
 class LoopSpec:
-    def __init__(self, qual, ordinal, inv, modifies_locals=(), modifies=(), props=()):
+    def __init__(self, qual, ordinal, inv, modifies_locals=(), modifies=(), props=(), body=None):
         self.qual = qual
         self.ordinal = ordinal
         self.inv = inv                      # fn(c) -> [(name, clause)]  ; c.loc(name), c.visited, c.index
         self.modifies_locals = list(modifies_locals)
+        self.body = body                    # fn(c) -> clauses checked at the end of every iteration (locals of the body visible)
         self.modifies = list(modifies)
         self.props = list(props)
 
@@ -123,6 +124,11 @@ class V:
         if isinstance(v, (str, EnumConst)):
             return self._e.lift(v).t
         raise TypeError(f"no term for {v!r}")
+
+    @property
+    def num(self):
+        """numeric reading of the value (Python's own coercion rules; for untyped values: num_of)"""
+        return self._e.num(self._v)
 
     # containers
     @property
